@@ -77,6 +77,8 @@ type steps struct {
 	// children), "error-echo" (an error IQ that only echoes the request),
 	// "get" / "notype" (an IQ that is neither result nor error)
 	bindReply string
+	// the SCRAM server has sent its final message
+	scramDone bool
 }
 
 func withBindReply(tr transcript, kind string) transcript {
@@ -296,13 +298,27 @@ func negotiatorFor(ws bool, feats func() []xmpp.StreamFeature) xmpp.Negotiator {
 		return r.neg[ws]
 	}
 	cfg := func(*xmpp.Session, *xmpp.StreamConfig) xmpp.StreamConfig {
-		return xmpp.StreamConfig{Features: feats()}
+		c := xmpp.StreamConfig{Features: feats()}
+		// the XML console: copies of what is read / written go to these writers
+		switch teeMode {
+		case "both":
+			c.TeeIn, c.TeeOut = io.Discard, io.Discard
+		case "out":
+			c.TeeOut = io.Discard
+		case "in":
+			c.TeeIn = io.Discard
+		}
+		return c
 	}
 	if ws {
 		return websocket.Negotiator(cfg)
 	}
 	return xmpp.NewNegotiator(cfg)
 }
+
+// teeMode, when set, makes the sessions of the transcripts copy their input
+// and/or output to a console writer (StreamConfig.TeeIn / TeeOut).
+var teeMode string
 
 func idOf(fresh []byte) string {
 	i := bytes.Index(fresh, []byte(`id="`))
@@ -914,6 +930,45 @@ func TestC04FailingStep(t *testing.T) {
 		if len(r.stepRes) == 0 {
 			t.Fatalf("harness: the voluntary double never ran in %q (err=%v)", tr.name, r.err)
 		}
+	}
+}
+
+// TestC04Tee: the handshakes with the XML console switched on (TeeIn / TeeOut):
+// the same faults must fail the same way.
+func TestC04Tee(t *testing.T) {
+	ev.Begin(t)
+	defer func() { teeMode = "" }()
+	for _, mode := range []string{"both", "out", "in"} {
+		for _, tr := range []transcript{fullInitiator(false, false, false, false), fullReceiver(false, false, false), plainInitiator(false)} {
+			teeMode = mode
+			base := baseline(t, tr)
+			for n := 0; n < base.writes; n++ {
+				for _, kind := range []string{"writeerr", "writelate", "writetimeout"} {
+					ev.Case(true, fmt.Sprintf("%s tee=%s %s@%d", tr.name, mode, kind, n), "tee-"+mode, "tee-"+kind)
+					checkFaultTee(t, tr, fault{kind: kind, n: n}, n%2 == 0, base, mode)
+				}
+			}
+			for n := 0; n < base.reads; n++ {
+				ev.Case(true, fmt.Sprintf("%s tee=%s readerr@%d", tr.name, mode, n), "tee-"+mode, "tee-readerr")
+				checkFaultTee(t, tr, fault{kind: "readerr", n: n}, n%2 == 1, base, mode)
+			}
+			for n := 0; n < base.fed; n += 1 + n%5 {
+				ev.Case(true, fmt.Sprintf("%s tee=%s cut@%d", tr.name, mode, n), "tee-"+mode, "tee-cut")
+				checkFaultTee(t, tr, fault{kind: "cut", n: n}, n%2 == 0, base, mode)
+			}
+			for n := 0; n < base.ops; n++ {
+				ev.Case(true, fmt.Sprintf("%s tee=%s cancel@%d", tr.name, mode, n), "tee-"+mode, "tee-cancel")
+				checkFaultTee(t, tr, fault{kind: "cancel", n: n}, false, base, mode)
+			}
+		}
+	}
+}
+
+func checkFaultTee(t failer, tr transcript, f fault, plainRW bool, base result, mode string) {
+	t.Helper()
+	r := runWith(tr, f, plainRW)
+	if msg := judge(tr, f, base, r); msg != "" {
+		ev.Failf(t, "XML console: StreamConfig tee mode %q\n%s\n%s", mode, describe(tr, f, plainRW, base, r), msg)
 	}
 }
 
